@@ -521,7 +521,12 @@ func substString(info *types.Info, e ast.Expr, subst map[types.Object]ast.Expr) 
 	})
 	for _, id := range ids {
 		if a, ok := subst[info.ObjectOf(id)]; ok {
-			s = replaceIdent(s, id.Name, exprString(a))
+			// exprString printed the identifier under its canonical name, if it has one
+			name := id.Name
+			if c, ok := canonName(id); ok {
+				name = c
+			}
+			s = replaceIdent(s, name, exprString(a))
 		}
 	}
 	return s
